@@ -170,6 +170,20 @@ def execute(scn):
         probe("reject:" + r["exc"][0] + ":" + r["exc"][1][:40])
         res["rejected"] = r["exc"]
         res["nontrivial"] = False
+        if scn["mode"] == "c04":
+            # is it the history? build the final mapping only (same declarations, every port
+            # connected once) and export that
+            fin = final_only(ops, design)
+            it2 = interp.Interp(h)
+            try:
+                for op in fin:
+                    it2.run(op)
+                r2 = it2.run(["to_proto", [top], True])
+            except Exception:  # noqa
+                r2 = {"ok": False}
+            if r2["ok"]:
+                res["findings"].append({"prop": "C04", "clause": "history-rejected", "detail": [f"the final mapping alone exports, but after the operation history export raises {r['exc']}"]})
+                del res["rejected"]
         return res
     pkg = r["pkg"]
     model = refmodel.flatten(design, top, locs)
@@ -219,6 +233,29 @@ def execute(scn):
     res["sig"] = hash64(shape_sig(ops), sched.trace_digest, scn["sched"][0])
     res["leaves"] = len(model["leaves"])
     return res
+
+
+def final_only(ops, design):
+    """The program that performs only the final connections of `ops` (module names get a suffix so
+    that the two builds can live in one process)."""
+    out = []
+    for op in ops:
+        k = op[0]
+        if k in ("conn", "repl", "disc") or k in interp.EXPORT_OPS:
+            continue
+        if k == "module":
+            op = [op[0], op[1], (op[2] + "_final") if op[2] else op[2], op[3]]
+        if k in ("inst", "arr", "pair"):
+            op = list(op)
+            ci = 5 if k == "inst" else (6 if k == "arr" else 4)
+            op[ci] = {}
+        if k == "end":
+            m = design.mods[op[1]]
+            for iname, conns in m.conns.items():
+                for port, x in conns.items():
+                    out.append(["conn", op[1], iname, port, x, "connect"])
+        out.append(op)
+    return out
 
 
 def _live_invariant(it, stepd, op):
@@ -290,6 +327,11 @@ def _finish_c02(scn, res, it, top, bad, build_exc, probe, sched):
     for call in (["to_proto", [top], True], ["netlist", [top], "spice", True], ["elaborate", [top], True]):
         r = it.run(call)
         outcomes[call[0]] = r["ok"]
+        if call[0] == "to_proto" and r["ok"]:
+            # a package was returned for an ill-formed design: is it at least closed? (C06)
+            cv = netview.closed_violations(r["pkg"], prim_ports(), check_tools=False)
+            if cv:
+                res["findings"].append({"prop": "C06", "clause": "closed", "detail": cv[:4] + [f"(exported from a design with a planted fault: {bad})"]})
     res["sched"] = sched.stats()
     if outcomes["to_proto"] or outcomes["netlist"]:
         res["findings"].append(
